@@ -85,10 +85,20 @@ fn check(c: &Case, info: &mut Info) -> Result<(), String> {
         Arc::Written(p) => (gen::run_program(p, false).map_err(|e| format!("harness: program refused: {e}"))?, 0usize),
         Arc::Foreign(s) => {
             let b = build::build(s).map_err(|e| format!("harness: {e}"))?;
+            if genf::zip64_search_ambiguous(s, &b) {
+                // format-inherent ambiguity: the prepended data contains a ZIP64 end-record signature
+                info.label("skipped-ambiguous");
+                return Ok(());
+            }
             let st = b.prefix_len as usize;
             (b.bytes, st)
         }
     };
+    if let Ok(path) = std::env::var("ZV_DUMP_INPUT") {
+        if !std::path::Path::new(&path).exists() {
+            let _ = std::fs::write(path, &bytes);
+        }
+    }
     // seekable reference, physical order == central order by construction
     let mut za = zip::ZipArchive::new(Cursor::new(&bytes[..])).map_err(|e| format!("harness: seekable reader refuses the archive: {e}"))?;
     let n = za.len();
